@@ -448,11 +448,26 @@ BUILTIN_OVERRIDES = dict(min=s_min, max=s_max, abs=s_abs, int=s_int, float=s_flo
 # --------------------------------------------------------------------------------------
 # context / exploration
 # --------------------------------------------------------------------------------------
+class TrackedSolver(z3.Solver):
+    """z3.Solver whose `add` invalidates the owning context's cached model (harness code adds
+    assumptions directly; a stale model must never steer a branch)."""
+    owner = None
+
+    def add(self, *args):
+        z3.Solver.add(self, *args)
+        if self.owner is not None:
+            self.owner.model = None
+
+    def add_keep_model(self, *args):
+        z3.Solver.add(self, *args)
+
+
 class Ctx:
     cur = None
 
     def __init__(self, prefix=(), timeout_ms=15000, seed=0):
-        self.solver = z3.Solver()
+        self.solver = TrackedSolver()
+        self.solver.owner = self
         self.solver.set("timeout", timeout_ms)
         if seed:
             self.solver.set("random_seed", seed % 1000)
@@ -520,9 +535,10 @@ class Ctx:
     def assume(self, e):
         e = lb(e) if not isinstance(e, bool) else z3.BoolVal(e)
         self.assumptions += 1
-        self.solver.add(e)
-        if self.model is not None:
-            v = self.model.eval(e, model_completion=True)
+        old = self.model
+        self.solver.add_keep_model(e)
+        if old is not None:
+            v = old.eval(e, model_completion=True)
             if z3.is_true(v):
                 return
         self.model = None
@@ -573,7 +589,7 @@ class Ctx:
                 else:
                     raise PathAbort()
         self.trace.append(v)
-        self.solver.add(e if v else z3.Not(e))
+        self.solver.add_keep_model(e if v else z3.Not(e))
         self.decided[eid] = v
         self._keep.append(e)
         if z3.is_not(e):
